@@ -1,43 +1,207 @@
-"""veneer.py / object_types.py  ->  Gen/Frames.lean   (property C07)
+"""veneer.py / vectors.py / geometry.py / object_types.py  ->  Gen/Frames.lean   (property C07)
 
-What is extracted (template = the shape of the anchored source; the *formulas and tables* are the data):
+Two kinds of tie, both rename / formatting tolerant because every anchored function is first *inlined*
+(`inline_function`: straight-line symbolic execution of the body — local variables are substituted into
+the returned expression, `if` statements become conditional expressions, error messages are dropped —
+and the result is printed back with `ast.unparse`):
 
-  LeftSpec, RightSpec, Ahead, Behind, Above, Below (veneer.py):
-      return directionalSpecHelper("<syntax>", pos, dist, "<axis>",
-                                   lambda dist: (<c0>, <c1>, <c2>),
-                                   lambda self, dims, tol, dx, dy, dz: Vector(<e0>, <e1>, <e2>))
-      -> `<k>Components dist`, `<k>Offset selfW selfL selfH d0 d1 d2 tol dx dy dz`, `<k>Axis`
-  directionalSpecHelper.makeContactOffset:
-      if dist is None: return <A>   else: return <B>          -> contactOffsetNone / contactOffsetGiven
-  On.helper:      contactOffset = Vector(<a>, <b>, <c>) - context.baseOffset      -> onContactOffset
-  Beyond:         offset = Vector(<a>, <b>, <c>)  (scalar branch)                  -> beyondScalar
-  ApparentlyFacing.helper:
-      return {"yaw": fromPt.angleTo(context.position) + heading}                   -> usesParent = false
-      or  direction = context.position - fromPt
-          rotated = direction.applyRotation(context.parentOrientation.inverse)
-          return {"yaw": rotated.sphericalCoordinates()[1] + heading}              -> usesParent = true
-  Object.corners (object_types.py):   8 x self.relativePosition(Vector(±hw, ±hl, ±hh))   -> cornerTable
-  Object.left … bottomBackRight:      return self.relativize(Vector(±self.hw|0, ±self.hl|0[, ±self.hh|0]))
-                                                                                   -> sideTable
+DATA (flows into Gen/Frames.lean; the `gen_*` side conditions and the theorems are re-proved on it)
 
-Expressions are translated by a *restricted* Python-expression translator (numbers, the whitelisted
+  LeftSpec … Below:   `toComponents`, `makeOffset` formulas, axis           -> <k>Components, <k>Offset, <k>Axis
+  directionalSpecHelper.makeContactOffset                                    -> contactOffsetNone / Given
+  On.helper:          contactOffset = Vector(a, b, c) - context.baseOffset   -> onContactOffset
+  Beyond:             scalar offset read as Vector(a, b, c)                  -> beyondScalar
+  FacingToward, FacingDirectlyToward, FacingAwayFrom, FacingDirectlyAwayFrom, ApparentlyFacing:
+                      direction (toward / away), pitch specified?, heading added?   -> facingTable
+  Vector.rotatedBy:   (c*x - s*y, s*x + c*y, z)                              -> rotatedByFormula
+  Vector.sphericalCoordinates / azimuthTo / altitudeTo, geometry.apparentHeadingAtPoint:
+                      angle formulas over atan2, ± pi/2, +, -, normalizeAngle, compiled to
+                      (cos, sin) arithmetic: arguments of the atan2 and the post-processing   -> *Args, *Post
+  Orientation._fromEuler / eulerAngles: the SciPy axis sequence "ZXY"        -> fromEulerAxes, eulerAnglesAxes
+  VectorField.followFrom: steps = max(minSteps, ceil(dist / stepSize))       -> followNumSteps
+  Object.corners, Object.left … bottomBackRight                              -> cornerTable, sideTable
+
+TEMPLATES (the inlined form must equal the recorded one, else TemplateMismatch: the tie then rests on the
+correspondence run at thorough budget): Beyond, OffsetBy, OffsetAlongSpec, OffsetAlong, Following, Follow,
+Facing, RelativeTo (dispatch order), RelativeHeading, ApparentHeading, DistancePast, DistanceFrom, AngleFrom,
+AltitudeFrom, the five facing helpers' dependencies, directionalSpecHelper's three branches, On,
+Orientation.{_fromHeading, inverse, __mul__, __add__, __radd__, localAnglesFor, yaw, pitch, roll},
+Vector.{applyRotation, offsetLocally, offsetRotated, distanceTo, angleTo, __add__, __sub__, dot, cross},
+VectorField.{__getitem__, followFrom}, OrientedPoint.{relativize, relativePosition, distancePast, toHeading,
+toOrientation, orientation / heading defaults}, Object.__init__ (hw = width / 2 …), geometry.normalizeAngle.
+
+Scalar expressions are translated by a *restricted* Python-expression translator (numbers 0/1/2, whitelisted
 names, `+ - * /`, unary minus); anything else raises TemplateMismatch.
 """
 import ast
+import copy
 
 from translate.astutil import TemplateMismatch, body_nodoc, expect, get_def, is_name, load
 
 VENEER = "src/scenic/syntax/veneer.py"
 OBJTYPES = "src/scenic/core/object_types.py"
+VECTORS = "src/scenic/core/vectors.py"
+GEOMETRY = "src/scenic/core/geometry.py"
 
 SPECS = [("left", "LeftSpec"), ("right", "RightSpec"), ("ahead", "Ahead"), ("behind", "Behind"),
          ("above", "Above"), ("below", "Below")]
 SIDES = ["left", "right", "front", "back", "top", "bottom", "frontLeft", "frontRight", "backLeft", "backRight",
          "topFrontLeft", "topFrontRight", "topBackLeft", "topBackRight", "bottomFrontLeft", "bottomFrontRight",
          "bottomBackLeft", "bottomBackRight"]
+FACING = ["FacingToward", "FacingDirectlyToward", "FacingAwayFrom", "FacingDirectlyAwayFrom", "ApparentlyFacing"]
 
 
-# ------------------------------------------------------------------ restricted expression translator
+# ------------------------------------------------------------------ inliner
+class _Subst(ast.NodeTransformer):
+    def __init__(self, env):
+        self.env = env
+
+    def visit_Name(self, node):
+        if isinstance(node.ctx, ast.Load) and node.id in self.env:
+            return copy.deepcopy(self.env[node.id])
+        return node
+
+    def visit_Constant(self, node):
+        # error messages are not part of the behaviour
+        if isinstance(node.value, str) and (" " in node.value or len(node.value) > 30):
+            return ast.Constant("_")
+        return node
+
+    def visit_JoinedStr(self, node):
+        return ast.Constant("_")
+
+    def visit_Lambda(self, node):
+        shadow = {a.arg for a in node.args.args}
+        node.body = _Subst({k: v for k, v in self.env.items() if k not in shadow}).visit(node.body)
+        return node
+
+
+def subst(node, env):
+    return _Subst(env).visit(copy.deepcopy(node))
+
+
+def _exits(stmts):
+    for st in stmts:
+        if isinstance(st, ast.FunctionDef):
+            continue
+        for n in ast.walk(st):
+            if isinstance(n, (ast.Return, ast.Raise)):
+                return True
+    return False
+
+
+RAISE = "RAISE"
+
+
+def _is_raise(n):
+    return isinstance(n, ast.Name) and n.id == RAISE
+
+
+def inline_block(stmts, env, k, guards, local_defs):
+    """the value returned by executing `stmts` in `env` and then continuing with k(env)"""
+    for i, st in enumerate(stmts):
+        if isinstance(st, ast.Expr) and isinstance(st.value, ast.Constant):
+            continue
+        if isinstance(st, ast.Pass):
+            continue
+        if isinstance(st, ast.FunctionDef):
+            local_defs.setdefault(st.name, []).append((st, dict(env)))
+            env.pop(st.name, None)
+            continue
+        if isinstance(st, ast.Assert):
+            guards.append("assert " + ast.unparse(subst(st.test, env)))
+            continue
+        if isinstance(st, ast.Assign):
+            v = subst(st.value, env)
+            for t in st.targets:
+                if isinstance(t, ast.Name):
+                    env[t.id] = v
+                elif isinstance(t, ast.Tuple) and all(isinstance(e, ast.Name) for e in t.elts):
+                    if isinstance(v, ast.Tuple) and len(v.elts) == len(t.elts):
+                        for e, x in zip(t.elts, v.elts):
+                            env[e.id] = x
+                    else:
+                        for j, e in enumerate(t.elts):
+                            env[e.id] = ast.Subscript(value=copy.deepcopy(v), slice=ast.Constant(j), ctx=ast.Load())
+                elif isinstance(t, ast.Attribute) and is_name(t.value, "self"):
+                    env["self." + t.attr] = v          # recorded, never substituted (not a Name)
+                elif (isinstance(t, ast.Subscript) and isinstance(t.value, ast.Name) and isinstance(t.slice, ast.Constant)
+                      and isinstance(env.get(t.value.id), ast.Dict)):
+                    # `d[key] = v` on a local dict literal
+                    dct = copy.deepcopy(env[t.value.id])
+                    keys = [k.value if isinstance(k, ast.Constant) else None for k in dct.keys]
+                    if t.slice.value in keys:
+                        dct.values[keys.index(t.slice.value)] = v
+                    else:
+                        dct.keys.append(ast.Constant(t.slice.value))
+                        dct.values.append(v)
+                    env[t.value.id] = dct
+                else:
+                    raise TemplateMismatch(f"unsupported assignment target: {ast.unparse(st)[:80]}")
+            continue
+        if isinstance(st, ast.AugAssign) and isinstance(st.target, ast.Name):
+            cur = env.get(st.target.id, ast.Name(st.target.id, ast.Load()))
+            env[st.target.id] = ast.BinOp(left=copy.deepcopy(cur), op=st.op, right=subst(st.value, env))
+            continue
+        if isinstance(st, ast.Return):
+            return subst(st.value, env) if st.value is not None else ast.Constant(None)
+        if isinstance(st, ast.Raise):
+            return ast.Name(RAISE, ast.Load())
+        if isinstance(st, ast.If):
+            test = subst(st.test, env)
+            rest = stmts[i + 1:]
+            if _exits(st.body) or _exits(st.orelse):
+                def k2(e, rest=rest):
+                    return inline_block(rest, e, k, guards, local_defs)
+                a = inline_block(st.body, dict(env), k2, guards, local_defs)
+                b = inline_block(st.orelse, dict(env), k2, guards, local_defs)
+                if _is_raise(a) and not _is_raise(b):
+                    guards.append("raise if " + ast.unparse(test))
+                    return b
+                return ast.IfExp(test=test, body=a, orelse=b)
+            e1, e2 = dict(env), dict(env)
+            inline_block(st.body, e1, lambda e: None, guards, local_defs)
+            inline_block(st.orelse, e2, lambda e: None, guards, local_defs)
+            for key in sorted(set(e1) | set(e2)):
+                a = e1.get(key, ast.Name(key, ast.Load()))
+                b = e2.get(key, ast.Name(key, ast.Load()))
+                env[key] = a if ast.dump(a) == ast.dump(b) else ast.IfExp(test=copy.deepcopy(test), body=a, orelse=b)
+            continue
+        if isinstance(st, ast.Expr) and isinstance(st.value, ast.Call):
+            guards.append("call " + ast.unparse(subst(st.value, env)))
+            continue
+        raise TemplateMismatch(f"unsupported statement: {ast.unparse(st)[:80]}")
+    return k(env)
+
+
+class Inlined:
+    def __init__(self, fn, env=None):
+        env = dict(env or {})
+        for a in fn.args.args + fn.args.kwonlyargs:
+            env.pop(a.arg, None)
+        self.fn, self.guards, self.defs = fn, [], {}
+        self.value = inline_block(fn.body, env, lambda e: ast.Constant(None), self.guards, self.defs)
+        self.env = env
+
+    @property
+    def text(self):
+        return ast.unparse(self.value)
+
+    def local(self, name, index=0):
+        lst = self.defs.get(name, [])
+        expect(len(lst) > index, f"local function {name}[{index}] not found")
+        fn, env = lst[index]
+        return Inlined(fn, env)
+
+
+def inline_def(tree, qual, rel):
+    try:
+        return Inlined(get_def(tree, qual, rel))
+    except RecursionError:
+        raise TemplateMismatch(f"{qual}: too deeply nested to inline")
+
+
+# ------------------------------------------------------------------ restricted expression translators
 def pyexpr(node, env):
     """Python arithmetic expression -> Lean term (fully parenthesised). env: callable(node) -> str | None."""
     name = env(node)
@@ -66,6 +230,13 @@ def env_names(mapping):
     return env
 
 
+def env_text(mapping):
+    """leaves recognised by their unparsed text"""
+    def env(node):
+        return mapping.get(ast.unparse(node))
+    return env
+
+
 def env_offset(node):
     """names available inside `lambda self, dims, tol, dx, dy, dz: ...`"""
     if isinstance(node, ast.Name) and node.id in ("tol", "dx", "dy", "dz"):
@@ -76,6 +247,50 @@ def env_offset(node):
             and node.slice.value in (0, 1, 2)):
         return f"d{node.slice.value}"
     return None
+
+
+def _is_half_pi(node):
+    return ast.unparse(node) in ("math.pi / 2", "math.pi / 2.0", "pi / 2", "pi / 2.0")
+
+
+class AngleFormula:
+    """an angle expression over atan2 atoms / angle inputs, compiled to (cos, sin) arithmetic:
+         atan2(A, B)         -> a new atom k with inputs (c{k}, s{k}); A, B recorded as scalar formulas
+         E ± pi/2            -> (∓s, ±c)
+         E1 ± E2, -E         -> the addition formulas
+         normalizeAngle(E)   -> E  (the pair does not depend on the representative)
+         an angle input name -> (c<name>, s<name>)"""
+
+    def __init__(self, scalar_env, angle_inputs=()):
+        self.scalar_env, self.angle_inputs, self.atoms = scalar_env, tuple(angle_inputs), []
+
+    def compile(self, node):
+        if isinstance(node, ast.Call) and ast.unparse(node.func) == "normalizeAngle" and len(node.args) == 1:
+            return self.compile(node.args[0])
+        if isinstance(node, ast.Call) and ast.unparse(node.func) in ("math.atan2", "atan2") and len(node.args) == 2 \
+                and not node.keywords:
+            k = len(self.atoms)
+            self.atoms.append((pyexpr(node.args[0], self.scalar_env), pyexpr(node.args[1], self.scalar_env)))
+            return (f"c{k}", f"s{k}")
+        if isinstance(node, ast.Name) and node.id in self.angle_inputs:
+            return (f"c{node.id}", f"s{node.id}")
+        if isinstance(node, ast.UnaryOp) and isinstance(node.op, ast.USub):
+            c, s = self.compile(node.operand)
+            return (c, f"(-{s})")
+        if isinstance(node, ast.BinOp) and isinstance(node.op, (ast.Add, ast.Sub)):
+            plus = isinstance(node.op, ast.Add)
+            if _is_half_pi(node.right):
+                c, s = self.compile(node.left)
+                return (f"(-{s})", c) if plus else (s, f"(-{c})")
+            if _is_half_pi(node.left) and plus:
+                c, s = self.compile(node.right)
+                return (f"(-{s})", c)
+            c1, s1 = self.compile(node.left)
+            c2, s2 = self.compile(node.right)
+            if plus:
+                return (f"(({c1} * {c2}) - ({s1} * {s2}))", f"(({s1} * {c2}) + ({c1} * {s2}))")
+            return (f"(({c1} * {c2}) + ({s1} * {s2}))", f"(({s1} * {c2}) - ({c1} * {s2}))")
+        raise TemplateMismatch(f"unsupported angle expression: {ast.unparse(node)[:80]}")
 
 
 def _lambda(node, argnames, what):
@@ -93,17 +308,18 @@ def _vector3(node, what, allow2=False):
     return list(node.args)
 
 
-# ------------------------------------------------------------------ extraction
+# ------------------------------------------------------------------ extraction: directional specifiers, on, beyond
 def extract_dirspec(tree, key, fname):
     fn = get_def(tree, fname, VENEER)
     expect([a.arg for a in fn.args.args] == ["pos", "dist"], f"{fname}: parameters changed")
-    body = body_nodoc(fn)
-    expect(len(body) == 1 and isinstance(body[0], ast.Return), f"{fname}: body is not a single return")
-    call = body[0].value
+    call = Inlined(fn).value
     expect(isinstance(call, ast.Call) and is_name(call.func, "directionalSpecHelper") and len(call.args) == 6
            and not call.keywords, f"{fname}: not directionalSpecHelper(6 args)")
     syn, pos, dist, axis, comp, off = call.args
     expect(isinstance(syn, ast.Constant) and isinstance(syn.value, str), f"{fname}: syntax")
+    raw = [n for n in ast.walk(fn) if isinstance(n, ast.Call) and is_name(n.func, "directionalSpecHelper")]
+    if len(raw) == 1 and raw[0].args and isinstance(raw[0].args[0], ast.Constant) and isinstance(raw[0].args[0].value, str):
+        syn = raw[0].args[0]          # the inliner blanks strings with spaces (error messages)
     expect(is_name(pos, "pos") and is_name(dist, "dist"), f"{fname}: pos/dist not passed through")
     expect(isinstance(axis, ast.Constant) and axis.value in ("width", "length", "height"), f"{fname}: axis")
     cb = _lambda(comp, ["dist"], f"{fname} toComponents")
@@ -114,38 +330,53 @@ def extract_dirspec(tree, key, fname):
     return {"syntax": syn.value, "axis": axis.value, "components": comps, "offset": offs}
 
 
+def norm(text):
+    """normalise an expected template through the parser (parenthesisation, quotes)"""
+    return ast.unparse(ast.parse(text, mode="eval"))
+
+
+def _helper_template():
+    def branches(dx, dy, dz):
+        comps = f"{dx}, {dy}, {dz}"
+        return ("Specifier(syntax, ({'position': 1, 'parentOrientation': 3} if isA(pos, Object) else "
+                "({'position': 1, 'parentOrientation': 3} if isA(pos, OrientedPoint) else {'position': 1})), "
+                "(DelayedArgument({axis, 'contactTolerance'}, "
+                "lambda self: {'position': pos.relativePosition(makeOffset(self, (pos.width, pos.length, pos.height), "
+                f"makeContactOffset(dist, self.contactTolerance), {comps})), 'parentOrientation': pos.orientation}}) "
+                "if isA(pos, Object) else "
+                "(DelayedArgument({axis}, lambda self: "
+                f"{{'position': pos.relativePosition(makeOffset(self, (0, 0, 0), 0, {comps})), "
+                "'parentOrientation': pos.orientation}) "
+                "if isA(pos, OrientedPoint) else "
+                "DelayedArgument({axis, 'orientation'}, lambda self: "
+                f"{{'position': toVector(pos, '_').offsetLocally(self.orientation, makeOffset(self, (0, 0, 0), 0, {comps}))}}))))")
+    tc = [f"toComponents(coerce(dist, builtins.float))[{k}]" for k in range(3)]
+    cv = [f"coerce(dist, Vector)[{k}]" for k in range(3)]
+    return norm(f"{branches('0', '0', '0')} if dist is None else ({branches(*tc)} if canCoerce(dist, builtins.float) else "
+                f"({branches(*cv)} if canCoerce(dist, Vector) else RAISE))")
+
+
 def extract_contact(tree):
     helper = get_def(tree, "directionalSpecHelper", VENEER)
     expect([a.arg for a in helper.args.args] == ["syntax", "pos", "dist", "axis", "toComponents", "makeOffset"],
            "directionalSpecHelper: parameters changed")
-    fn = None
-    for ch in ast.iter_child_nodes(helper):
-        if isinstance(ch, ast.FunctionDef) and ch.name == "makeContactOffset":
-            fn = ch
-    expect(fn is not None, "makeContactOffset not found")
+    inl = Inlined(helper)
+    mco = inl.local("makeContactOffset")
+    fn = inl.defs["makeContactOffset"][0][0]
     expect([a.arg for a in fn.args.args] == ["dist", "ct"], "makeContactOffset: parameters changed")
-    body = body_nodoc(fn)
-    expect(len(body) == 1 and isinstance(body[0], ast.If), "makeContactOffset: body shape")
-    iff = body[0]
-    t = iff.test
-    expect(isinstance(t, ast.Compare) and is_name(t.left, "dist") and len(t.ops) == 1 and isinstance(t.ops[0], ast.Is)
-           and isinstance(t.comparators[0], ast.Constant) and t.comparators[0].value is None,
-           "makeContactOffset: test is not `dist is None`")
-    expect(len(iff.body) == 1 and isinstance(iff.body[0], ast.Return) and len(iff.orelse) == 1
-           and isinstance(iff.orelse[0], ast.Return), "makeContactOffset: branches")
+    v = mco.value
+    expect(isinstance(v, ast.IfExp) and ast.unparse(v.test) == "dist is None",
+           "makeContactOffset: not `<A> if dist is None else <B>`")
     env = env_names({"ct": "ct"})
-    # the three call sites: Object -> makeContactOffset(dist, self.contactTolerance); OrientedPoint / vector -> 0
-    src = ast.unparse(helper)
-    expect("makeContactOffset(dist, self.contactTolerance)" in src, "Object branch no longer passes the contact offset")
-    expect(src.count("makeOffset(self, (0, 0, 0), 0, dx, dy, dz)") == 2,
-           "OrientedPoint/vector branches no longer call makeOffset(self, (0, 0, 0), 0, dx, dy, dz)")
-    expect("obj_dims = (pos.width, pos.length, pos.height)" in src, "obj_dims changed")
-    return {"none": pyexpr(iff.body[0].value, env), "given": pyexpr(iff.orelse[0].value, env)}
+    res = {"none": pyexpr(v.body, env), "given": pyexpr(v.orelse, env)}
+    # the 3 (kind of distance) x 3 (Object / OrientedPoint / vector) branches
+    got, want = inl.text, _helper_template()
+    expect(got == want, f"directionalSpecHelper: branches changed:\n  got  {got}\n  want {want}")
+    return res
 
 
 def _find_assign(fn, target):
-    res = [n for n in ast.walk(fn) if isinstance(n, ast.Assign) and len(n.targets) == 1 and is_name(n.targets[0], target)]
-    return res
+    return [n for n in ast.walk(fn) if isinstance(n, ast.Assign) and len(n.targets) == 1 and is_name(n.targets[0], target)]
 
 
 def extract_on(tree):
@@ -165,132 +396,379 @@ def extract_on(tree):
     second = assigns[1].value
     expect(ast.unparse(second) == "contactOffset.rotatedBy(values['parentOrientation'])",
            "On: contactOffset is no longer rotated by the region orientation")
+    src = ast.unparse(fn)
+    expect("values['parentOrientation'] = target.orientation[pos]" in src, "On: parentOrientation is not target.orientation[pos]")
+    expect("values['position'] = pos + contactOffset" in src, "On: position is not pos + contactOffset")
+    expect("props = {'position': 1}" in src and "props['parentOrientation'] = 2" in src, "On: specified properties changed")
     return [f"({v} - o{c})" for v, c in zip(vec, "xyz")]
+
+
+FROM = "(ego() if fromPt is None else fromPt)"
+BEYOND_D = f"(toVector(pos, '_') - toVector({FROM[1:-1]}, '_'))"
+BEYOND = ("Specifier('Beyond', {'position': 1, 'parentOrientation': 3}, {'position': toVector(pos, '_') + "
+          "(SCALAR if underlyingType(offset) is builtins.float or underlyingType(offset) is builtins.int "
+          "else toVector(offset, '_')).applyRotation(Orientation.fromEuler("
+          f"{BEYOND_D}.sphericalCoordinates()[1], {BEYOND_D}.sphericalCoordinates()[2], 0)), "
+          f"'parentOrientation': {FROM}.orientation if isA({FROM[1:-1]}, OrientedPoint) else Orientation.fromEuler(0, 0, 0)}})")
 
 
 def extract_beyond(tree):
     fn = get_def(tree, "Beyond", VENEER)
     cands = [a for a in _find_assign(fn, "offset") if isinstance(a.value, ast.Call) and is_name(a.value.func, "Vector")]
     expect(len(cands) == 1, "Beyond: scalar branch `offset = Vector(..)` not found")
-    return [pyexpr(e, env_names({"offset": "d"})) for e in _vector3(cands[0].value, "Beyond scalar offset")]
+    data = [pyexpr(e, env_names({"offset": "d"})) for e in _vector3(cands[0].value, "Beyond scalar offset")]
+    got = Inlined(fn).text
+    want = norm(BEYOND.replace("SCALAR", ast.unparse(cands[0].value)))
+    expect(got == want, "Beyond: line-of-sight frame / inherited orientation changed (the OrientedPoint test must "
+           f"see `fromPt` before it is coerced to a vector):\n  got  {got}\n  want {want}")
+    return data
 
 
-def extract_beyond_inherits(tree):
-    """Does `Beyond` look at `isA(fromPt, OrientedPoint)` *before* `fromPt` is coerced to a plain vector?
-    (after the coercion the test can never succeed, so the orientation of an oriented `from` is dropped)"""
-    fn = get_def(tree, "Beyond", VENEER)
-    body = body_nodoc(fn)
-    coerce_at = test_at = None
-    for i, st in enumerate(body):
-        if (isinstance(st, ast.Assign) and len(st.targets) == 1 and is_name(st.targets[0], "fromPt")
-                and isinstance(st.value, ast.Call) and is_name(st.value.func, "toVector")
-                and st.value.args and is_name(st.value.args[0], "fromPt")):
-            expect(coerce_at is None, "Beyond: fromPt coerced twice")
-            coerce_at = i
-        if isinstance(st, ast.If) and ast.unparse(st.test) == "isA(fromPt, OrientedPoint)":
-            expect(test_at is None, "Beyond: two OrientedPoint tests")
-            expect([ast.unparse(x) for x in st.body] == ["orientation = fromPt.orientation"]
-                   and [ast.unparse(x) for x in st.orelse] == ["orientation = Orientation.fromEuler(0, 0, 0)"],
-                   "Beyond: orientation branches changed")
-            test_at = i
-    expect(coerce_at is not None and test_at is not None, "Beyond: coercion / OrientedPoint test not found")
-    src = ast.unparse(fn)
-    expect("direction = pos - fromPt" in src and "sphericalCoords = direction.sphericalCoordinates()" in src
-           and "offsetRotation = Orientation.fromEuler(sphericalCoords[1], sphericalCoords[2], 0)" in src
-           and "new_direction = pos + offset.applyRotation(offsetRotation)" in src,
-           "Beyond: line-of-sight frame computation changed")
-    expect("{'position': new_direction, 'parentOrientation': orientation}" in src, "Beyond: specified values changed")
-    return test_at < coerce_at
+# ------------------------------------------------------------------ extraction: the facing family
+def extract_facing(tree):
+    """-> {name: (away, pitch, addHeading)} from the inlined helpers"""
+    res = {}
+    for name in FACING:
+        inl = inline_def(tree, name, VENEER)
+        h = inl.local("helper").value
+        expect(isinstance(h, ast.Dict) and all(isinstance(k, ast.Constant) for k in h.keys), f"{name}.helper: not a dict")
+        d = {k.value: v for k, v in zip(h.keys, h.values)}
+        target = "toVector(pos, '_')" if name != "ApparentlyFacing" else f"toVector({FROM[1:-1]}, '_')"
+        found = None
+        for away in (False, True):
+            dirn = f"context.position - {target}" if away else f"{target} - context.position"
+            sph = f"({dirn}).applyRotation(context.parentOrientation.inverse).sphericalCoordinates()"
+            for add in (False, True):
+                yaw = f"{sph}[1]" + (" + toHeading(heading, '_')" if add else "")
+                if ast.unparse(d.get("yaw", ast.Constant(None))) != yaw:
+                    continue
+                if set(d) == {"yaw"}:
+                    found = (away, False, add)
+                elif set(d) == {"yaw", "pitch"} and ast.unparse(d["pitch"]) == f"{sph}[2]":
+                    found = (away, True, add)
+        expect(found is not None, f"{name}.helper: not `spherical angles of ±(target - position) in the parent frame "
+               f"[+ heading]`: {ast.unparse(h)[:300]}")
+        # what is specified / what it depends on
+        props = "{'yaw': 1, 'pitch': 1}" if found[1] else "{'yaw': 1}"
+        spec = inl.text
+        expect(spec.startswith("Specifier(") and spec.endswith(f", {props}, DelayedArgument({{'position', 'parentOrientation'}}, helper))"),
+               f"{name}: specified properties / dependencies changed: {spec}")
+        res[name] = found
+    return res
 
 
-def extract_apparently(tree):
-    fn = get_def(tree, "ApparentlyFacing", VENEER)
-    helper = None
-    for ch in ast.iter_child_nodes(fn):
-        if isinstance(ch, ast.FunctionDef) and ch.name == "helper":
-            helper = ch
-    expect(helper is not None, "ApparentlyFacing.helper not found")
-    src = [ast.unparse(s) for s in body_nodoc(helper)]
-    if src == ["return {'yaw': fromPt.angleTo(context.position) + heading}"]:
-        return False
-    if src == ["direction = context.position - fromPt",
-               "rotated = direction.applyRotation(context.parentOrientation.inverse)",
-               "return {'yaw': rotated.sphericalCoordinates()[1] + heading}"]:
-        return True
-    raise TemplateMismatch("ApparentlyFacing.helper has an unknown shape")
+# ------------------------------------------------------------------ extraction: vector / angle formulas
+def extract_rotated_by(vtree):
+    inl = inline_def(vtree, "Vector.rotatedBy", VECTORS)
+    v = inl.value
+    expect(isinstance(v, ast.IfExp) and ast.unparse(v.test) == "isinstance(angleOrOrientation, Orientation)"
+           and ast.unparse(v.body) == "self.applyRotation(angleOrOrientation)", "Vector.rotatedBy: Orientation branch changed")
+    env = env_text({"cos(angleOrOrientation)": "c", "sin(angleOrOrientation)": "s", "math.cos(angleOrOrientation)": "c",
+                    "math.sin(angleOrOrientation)": "s", "self.x": "x", "self.y": "y", "self.z": "z",
+                    "self[0]": "x", "self[1]": "y", "self[2]": "z"})
+    return [pyexpr(e, env) for e in _vector3(v.orelse, "Vector.rotatedBy")]
 
 
-def _signed_half(node, attr, own):
-    """±self.<attr> / ±<attr> / 0  ->  -1 | 0 | 1"""
+def extract_angles(vtree, gtree):
+    res = {}
+    # sphericalCoordinates: Vector(rho, theta, phi)
+    sph = _vector3(inline_def(vtree, "Vector.sphericalCoordinates", VECTORS).value, "sphericalCoordinates")
+    xyz = {"self.x": "x", "self.y": "y", "self.z": "z", "self[0]": "x", "self[1]": "y", "self[2]": "z"}
+    hyp = {"math.hypot(self.x, self.y)": "h", "math.hypot(self.y, self.x)": "h", "hypot(self.x, self.y)": "h"}
+    expect(ast.unparse(sph[0]) in ("math.hypot(self.x, self.y, self.z)", "hypot(self.x, self.y, self.z)"),
+           "sphericalCoordinates: rho is not hypot(x, y, z)")
+    for key, node in (("sphTheta", sph[1]), ("sphPhi", sph[2])):
+        f = AngleFormula(env_text({**xyz, **hyp}))
+        post = f.compile(node)
+        expect(len(f.atoms) == 1, f"{key}: expected exactly one atan2")
+        res[key] = {"params": "x y z h", "atoms": f.atoms, "post": post, "inputs": "c0 s0"}
+    # azimuthTo / altitudeTo on d = other - self
+    dmap = {f"(other.toVector() - self)[{k}]": f"d{k}" for k in range(3)}
+    dmap.update({f"(other - self)[{k}]": f"d{k}" for k in range(3)})
+    dh = {"math.hypot((other.toVector() - self)[0], (other.toVector() - self)[1])": "h",
+          "math.hypot((other - self)[0], (other - self)[1])": "h"}
+    for key, qual in (("azimuthTo", "Vector.azimuthTo"), ("altitudeTo", "Vector.altitudeTo")):
+        f = AngleFormula(env_text({**dmap, **dh}))
+        post = f.compile(inline_def(vtree, qual, VECTORS).value)
+        expect(len(f.atoms) == 1, f"{key}: expected exactly one atan2")
+        res[key] = {"params": "d0 d1 d2 h", "atoms": f.atoms, "post": post, "inputs": "c0 s0"}
+    expect(inline_def(vtree, "Vector.angleTo", VECTORS).text == "self.azimuthTo(other)", "Vector.angleTo is no longer azimuthTo")
+    # apparentHeadingAtPoint(point, heading, base)
+    pmap = {f"point[:2][{k}]": f"p{k}" for k in range(2)}
+    pmap.update({f"base[:2][{k}]": f"b{k}" for k in range(2)})
+    pmap.update({f"point[{k}]": f"p{k}" for k in range(2)})
+    pmap.update({f"base[{k}]": f"b{k}" for k in range(2)})
+    f = AngleFormula(env_text(pmap), angle_inputs=("heading",))
+    post = f.compile(inline_def(gtree, "apparentHeadingAtPoint", GEOMETRY).value)
+    expect(len(f.atoms) == 1, "apparentHeadingAtPoint: expected exactly one atan2")
+    res["apparentHeading"] = {"params": "p0 p1 b0 b1", "atoms": f.atoms, "post": post, "inputs": "cheading sheading c0 s0"}
+    return res
+
+
+def _const_str(node, what):
+    expect(isinstance(node, ast.Constant) and isinstance(node.value, str), f"{what}: not a string literal")
+    return node.value
+
+
+def extract_euler_axes(vtree):
+    v = inline_def(vtree, "Orientation._fromEuler", VECTORS).value
+    expect(isinstance(v, ast.Call) and is_name(v.func, "cls") and len(v.args) == 1, "_fromEuler: not cls(Rotation.from_euler(..))")
+    c = v.args[0]
+    expect(isinstance(c, ast.Call) and ast.unparse(c.func) == "Rotation.from_euler" and len(c.args) == 2
+           and ast.unparse(c.args[1]) == "[yaw, pitch, roll]"
+           and [(k.arg, ast.unparse(k.value)) for k in c.keywords] in ([("degrees", "False")], []),
+           f"_fromEuler: not Rotation.from_euler(<axes>, [yaw, pitch, roll], degrees=False): {ast.unparse(c)}")
+    a1 = _const_str(c.args[0], "_fromEuler axes")
+    v2 = inline_def(vtree, "Orientation.eulerAngles", VECTORS).value
+    expect(isinstance(v2, ast.Call) and ast.unparse(v2.func) == "_getEulerAngles" and len(v2.args) == 2
+           and ast.unparse(v2.args[0]) == "self.r", "eulerAngles: not _getEulerAngles(self.r, <axes>)")
+    a2 = _const_str(v2.args[1], "eulerAngles axes")
+    for a in (a1, a2):
+        expect(len(a) == 3 and all(ch in "XYZxyz" for ch in a), f"Euler axes {a!r}")
+    return a1, a2
+
+
+FOLLOW_FROM = ["if steps is None:\n    steps = self.minSteps\n    stepSize = self.defaultStepSize if stepSize is None else stepSize\n"
+               "    if stepSize is not None:\n        steps = STEPS",
+               "stepSize = dist / steps", "step = numpy.array([0, stepSize, 0])",
+               "for i in range(steps):\n    rot = self[pos].getRotation()\n    pos += rot.apply(step)", "return Vector(*pos)"]
+
+
+def extract_follow(vtree):
+    fn = get_def(vtree, "VectorField.followFrom", VECTORS)
+    body = [ast.unparse(s) for s in body_nodoc(fn)]
+    cands = [a for a in _find_assign(fn, "steps") if isinstance(a.value, ast.Call)]
+    expect(len(cands) == 1, "followFrom: `steps = max(..)` not found")
+    want = [s.replace("STEPS", ast.unparse(cands[0].value)) for s in FOLLOW_FROM]
+    expect(body == want, f"VectorField.followFrom: shape changed: {body}")
+    expect([a.arg for a in fn.args.args] == ["self", "pos", "dist", "steps", "stepSize"], "followFrom: parameters changed")
+    return follow_expr(cands[0].value)
+
+
+def follow_expr(node):
+    """max / min / math.ceil / math.floor / steps / dist / stepSize -> Lean (Nat-valued at the top)"""
+    def nat(n):
+        if is_name(n, "steps"):
+            return "minSteps"
+        if isinstance(n, ast.Call) and ast.unparse(n.func) in ("max", "min") and len(n.args) == 2 and not n.keywords:
+            return f"(Nat.{ast.unparse(n.func)} {nat(n.args[0])} {nat(n.args[1])})"
+        if isinstance(n, ast.Call) and ast.unparse(n.func) in ("math.ceil", "math.floor") and len(n.args) == 1:
+            f = {"math.ceil": "ceil", "math.floor": "floor"}[ast.unparse(n.func)]
+            return f"(Rat.{f} {rat(n.args[0])}).toNat"
+        raise TemplateMismatch(f"followFrom: unsupported step-count expression {ast.unparse(n)[:60]}")
+
+    def rat(n):
+        return pyexpr(n, env_names({"dist": "dist", "stepSize": "stepSize"}))
+    return nat(node)
+
+
+# ------------------------------------------------------------------ extraction: corners / sides of an Object
+def _signed_half(node, attr):
+    """±self.<attr> / 0  ->  -1 | 0 | 1"""
     sign = 1
     if isinstance(node, ast.UnaryOp) and isinstance(node.op, ast.USub):
         sign, node = -1, node.operand
     if isinstance(node, ast.Constant) and node.value == 0 and sign == 1:
         return 0
-    if own:
-        ok = isinstance(node, ast.Attribute) and is_name(node.value, "self") and node.attr == attr
-    else:
-        ok = is_name(node, attr)
-    expect(ok, f"expected ±{attr} or 0, got {ast.unparse(node)}")
+    ok = isinstance(node, ast.Attribute) and is_name(node.value, "self") and node.attr == attr
+    expect(ok, f"expected ±self.{attr} or 0, got {ast.unparse(node)}")
     return sign
 
 
-def extract_object_tables():
-    src, tree = load(OBJTYPES)
-    obj = get_def(tree, "Object", OBJTYPES)
+def extract_object_tables(otree):
+    obj = get_def(otree, "Object", OBJTYPES)
     defs = {n.name: n for n in ast.iter_child_nodes(obj) if isinstance(n, ast.FunctionDef)}
     expect("corners" in defs, "Object.corners not found")
-    body = body_nodoc(defs["corners"])
-    expect(len(body) == 2 and ast.unparse(body[0]) == "hw, hl, hh = (self.hw, self.hl, self.hh)", "corners: preamble changed")
-    ret = body[1]
-    expect(isinstance(ret, ast.Return) and isinstance(ret.value, ast.Tuple) and len(ret.value.elts) == 8,
-           "corners: not a tuple of 8")
+    ret = Inlined(defs["corners"]).value
+    expect(isinstance(ret, ast.Tuple) and len(ret.elts) == 8, "corners: not a tuple of 8")
     ctab = []
-    for e in ret.value.elts:
+    for e in ret.elts:
         expect(isinstance(e, ast.Call) and isinstance(e.func, ast.Attribute) and e.func.attr == "relativePosition"
                and is_name(e.func.value, "self") and len(e.args) == 1, "corners: element is not self.relativePosition(..)")
         a = _vector3(e.args[0], "corner")
-        ctab.append(tuple(_signed_half(x, n, False) for x, n in zip(a, ("hw", "hl", "hh"))))
+        ctab.append(tuple(_signed_half(x, n) for x, n in zip(a, ("hw", "hl", "hh"))))
     stab = []
     for name in SIDES:
         expect(name in defs, f"Object.{name} not found")
-        b = body_nodoc(defs[name])
-        expect(len(b) == 1 and isinstance(b[0], ast.Return), f"{name}: body shape")
-        c = b[0].value
+        c = Inlined(defs[name]).value
         expect(isinstance(c, ast.Call) and isinstance(c.func, ast.Attribute) and c.func.attr == "relativize"
                and is_name(c.func.value, "self") and len(c.args) == 1, f"{name}: not self.relativize(..)")
         a = _vector3(c.args[0], name, allow2=True)
-        t = [_signed_half(x, n, True) for x, n in zip(a, ("hw", "hl", "hh"))]
+        t = [_signed_half(x, n) for x, n in zip(a, ("hw", "hl", "hh"))]
         if len(t) == 2:
             t.append(0)
         stab.append((name, tuple(t)))
     # hw/hl/hh are half the dimensions
     init = defs.get("__init__")
     expect(init is not None, "Object.__init__ not found")
-    isrc = ast.unparse(init)
+    ini = Inlined(init)
     for a, d in (("hw", "width"), ("hl", "length"), ("hh", "height")):
-        expect(f"self.{a} = {a} = self.{d} / 2" in isrc, f"Object.__init__: self.{a} is no longer self.{d} / 2")
-    # relativePosition / relativize / offsetLocally shapes
-    op = get_def(tree, "OrientedPoint", OBJTYPES)
-    odefs = {n.name: n for n in ast.iter_child_nodes(op) if isinstance(n, ast.FunctionDef)}
-    expect("relativePosition" in odefs and [ast.unparse(s) for s in body_nodoc(odefs["relativePosition"])]
-           == ["return self.position.offsetLocally(self.orientation, vec)"], "OrientedPoint.relativePosition changed")
-    expect("relativize" in odefs and [ast.unparse(s) for s in body_nodoc(odefs["relativize"])]
-           == ["pos = self.relativePosition(vec)",
-               "return OrientedPoint._with(position=pos, parentOrientation=self.orientation)"],
-           "OrientedPoint.relativize changed")
+        got = ini.env.get("self." + a)
+        expect(got is not None and ast.unparse(got) == f"self.{d} / 2", f"Object.__init__: self.{a} is no longer self.{d} / 2")
     return ctab, stab
 
 
+# ------------------------------------------------------------------ templates
+F_FOLLOW = "toType(field, VectorField).followFrom(toVector(ego() if fromPt is None else fromPt, '_'), toScalar(dist, '_'))"
+REL_OTHER = "(Y if isA(X, OrientedPoint) else X)"
+REL_OP = "(X if isA(X, OrientedPoint) else Y)"
+TEMPLATES_VENEER = {
+    "OffsetBy": "Specifier('OffsetBy', {'position': 1, 'parentOrientation': 3}, {'position': RelativeTo(toVector(offset, '_'), "
+                "ego()).toVector(), 'parentOrientation': ego().orientation})",
+    "OffsetAlongSpec": "Specifier('OffsetAlong', {'position': 1, 'parentOrientation': 3}, {'position': OffsetAlong(ego(), "
+                       "direction, offset), 'parentOrientation': ego().orientation})",
+    "OffsetAlong": "toVector(X, '_').offsetLocally(toOrientation(H[toVector(X, '_')] if isA(H, VectorField) else H, '_'), "
+                   "toVector(Y, '_'))",
+    "Following": "Specifier('Following', {'position': 1, 'parentOrientation': 3}, {'position': " + F_FOLLOW +
+                 ", 'parentOrientation': toType(field, VectorField)[" + F_FOLLOW + "]})",
+    "Follow": "OrientedPoint._with(position=F.followFrom(toVector(X, '_'), toScalar(D, '_')), "
+              "parentOrientation=F[F.followFrom(toVector(X, '_'), toScalar(D, '_'))])",
+    "RelativeHeading": "normalizeAngle(toOrientation(X, '_').yaw - (ego().orientation if Y is None else toOrientation(Y, '_')).yaw)",
+    "ApparentHeading": "apparentHeadingAtPoint(X.position, X.heading, toVector(ego() if Y is None else Y, '_'))",
+    "DistancePast": "toType(ego() if Y is None else Y, OrientedPoint, '_').distancePast(toVector(X, '_'))",
+    "DistanceFrom": "toTypes(X, (Vector, Region), '_').distanceTo(toTypes(ego() if Y is None else Y, (Vector, Region), '_'))",
+    "AngleFrom": "toVector(ego() if X is None else X, '_').angleTo(toVector(ego() if Y is None else Y, '_'))",
+    "AltitudeFrom": "toVector(ego() if X is None else X, '_').altitudeTo(toVector(ego() if Y is None else Y, '_'))",
+    "RelativePosition": "toVector(X, '_') - toVector(ego() if Y is None else Y, '_')",
+    "RelativeTo":
+        "DelayedArgument({'position'}, helper) if isA(X, VectorField) or isA(Y, VectorField) else "
+        f"({REL_OP}.heading + toHeading{REL_OTHER} if isA({REL_OTHER[1:-1]}, numbers.Real) else "
+        f"toOrientation(Y) * toOrientation(X) if isA({REL_OTHER[1:-1]}, Orientation) else "
+        f"{REL_OP}.relativize(toVector{REL_OTHER}) if knownVector({REL_OTHER[1:-1]}) else "
+        "lazyRelativeTo(X, Y) if isLazy(X) or isLazy(Y) else RAISE) if isA(X, OrientedPoint) or isA(Y, OrientedPoint) else "
+        "toOrientation(Y) * toOrientation(X) if knownOrientation(X) and knownOrientation(Y) else "
+        "toHeading(X, '_') + toHeading(Y, '_') if knownHeading(X) and knownHeading(Y) else "
+        "toVector(X, '_') + toVector(Y, '_') if knownVector(X) or knownVector(Y) else "
+        "lazyRelativeTo(X, Y) if isLazy(X) or isLazy(Y) else RAISE",
+}
+RELTO_LOCALS = {
+    "knownOrientation": "isA(thing, Orientation) or (not isLazy(thing) and canCoerce(thing, Orientation) and (not canCoerce(thing, Vector)))",
+    "knownHeading": "isA(thing, numbers.Real) or (not isLazy(thing) and canCoerce(thing, Heading))",
+    "knownVector": "isA(thing, Vector) or (not isLazy(thing) and canCoerce(thing, Vector))",
+    "helper": "(Y[context.position.toVector()] if isA(Y, VectorField) else toType(Y, X.valueType if isA(X, VectorField) else "
+              "Y.valueType, '_')) + (X[context.position.toVector()] if isA(X, VectorField) else toType(X, X.valueType if "
+              "isA(X, VectorField) else Y.valueType, '_'))",
+}
+RELTO_GUARDS = ["raise if isA(X, VectorField) and isA(Y, VectorField) and (X.valueType != Y.valueType)",
+                "raise if isA(X, OrientedPoint) and isA(Y, OrientedPoint)"]
+FACING_HELPERS = [
+    "{'yaw': (heading[context.position] if alwaysGlobalOrientation(context.parentOrientation) else "
+    "context.parentOrientation.inverse * heading[context.position]).yaw, 'pitch': (heading[context.position] if "
+    "alwaysGlobalOrientation(context.parentOrientation) else context.parentOrientation.inverse * "
+    "heading[context.position]).pitch, 'roll': (heading[context.position] if alwaysGlobalOrientation("
+    "context.parentOrientation) else context.parentOrientation.inverse * heading[context.position]).roll}",
+    "{'yaw': context.parentOrientation.localAnglesFor(valueInContext(toOrientation(heading, '_'), context))[0], "
+    "'pitch': context.parentOrientation.localAnglesFor(valueInContext(toOrientation(heading, '_'), context))[1], "
+    "'roll': context.parentOrientation.localAnglesFor(valueInContext(toOrientation(heading, '_'), context))[2]}",
+]
+FACING_SPEC = ("Specifier('Facing', {'yaw': 1, 'pitch': 1, 'roll': 1}, DelayedArgument({'position', 'parentOrientation'}, helper)) "
+               "if isA(heading, VectorField) else Specifier('Facing', {'yaw': 1, 'pitch': 1, 'roll': 1}, "
+               "DelayedArgument({'parentOrientation'} | requiredProperties(toOrientation(heading, '_')), helper))")
+TEMPLATES_VECTORS = {
+    "Orientation._fromHeading": "cls(Rotation.from_rotvec([0, 0, heading], degrees=False))",
+    "Orientation.fromQuaternion": "cls(Rotation.from_quat(quaternion))",
+    "Orientation.inverse": "Orientation(self.r.inv())",
+    "Orientation.__mul__": "NotImplemented if type(other) is not Orientation else other if self == globalOrientation else "
+                           "self if other == globalOrientation else Orientation(self.r * other.r)",
+    "Orientation.__add__": "self * Orientation._fromHeading(other) if isinstance(other, (float, int)) else NotImplemented "
+                           "if type(other) is not Orientation else self * other",
+    "Orientation.__radd__": "Orientation._fromHeading(other) * self if isinstance(other, (float, int)) else NotImplemented "
+                            "if type(other) is not Orientation else other * self",
+    "Orientation.localAnglesFor": "(self.inverse * orientation).eulerAngles",
+    "Orientation.yaw": "self.eulerAngles[0]",
+    "Orientation.pitch": "self.eulerAngles[1]",
+    "Orientation.roll": "self.eulerAngles[2]",
+    "Orientation._coerce":
+        "Orientation._fromHeading(thing) if isinstance(thing, (float, int)) else thing if isinstance(thing, Orientation) else "
+        "thing.toOrientation() if hasattr(thing, 'toOrientation') else Orientation._fromEuler(*thing) if isinstance(thing, Vector) "
+        "else Orientation._fromEuler(*thing) if isinstance(thing, (tuple, list)) else "
+        "Orientation._fromHeading(coerceToFloat(thing)) if canCoerceType(type(thing), float) else RAISE",
+    "Vector.applyRotation": "TypeError('_') if not isinstance(rotation, Orientation) else "
+                            "Vector(*rotation.getRotation().apply(self.coordinates))",
+    "Vector.offsetRotated": "self + offset.rotatedBy(angleOrOrientation)",
+    "Vector.offsetLocally": "Vector(self[0] + orientation.getRotation().apply(offset)[0], self[1] + "
+                            "orientation.getRotation().apply(offset)[1], self[2] + orientation.getRotation().apply(offset)[2])",
+    "Vector.distanceTo": "other.distanceTo(self) if not isinstance(other, Vector) else math.hypot((other.toVector() - self)[0], "
+                         "(other.toVector() - self)[1], (other.toVector() - self)[2])",
+    "Vector.__add__": "Vector(self[0] + other[0], self[1] + other[1], self[2] + other[2])",
+    "Vector.__sub__": "Vector(self[0] - other[0], self[1] - other[1], self[2] - other[2])",
+    "Vector.dot": "self.x * other.x + self.y * other.y + self.z * other.z",
+    "Vector.cross": "Vector(self.y * other.z - self.z * other.y, self.z * other.x - self.x * other.z, "
+                    "self.x * other.y - self.y * other.x)",
+    "VectorField.__getitem__": "Orientation._fromHeading(self.value(pos)) if isinstance(self.value(pos), numbers.Real) else "
+                               "toOrientation(self.value(pos), '_')",
+}
+TEMPLATES_OBJTYPES = {
+    "OrientedPoint.relativize": "OrientedPoint._with(position=self.relativePosition(vec), parentOrientation=self.orientation)",
+    "OrientedPoint.relativePosition": "self.position.offsetLocally(self.orientation, vec)",
+    "OrientedPoint.distancePast": "(self.position - vec).rotatedBy(-self.heading).y",
+    "OrientedPoint.toHeading": "self.heading",
+    "OrientedPoint.toOrientation": "self.orientation",
+}
+NORMALIZE_ANGLE = ["while angle > math.pi:\n    angle -= math.tau", "while angle < -math.pi:\n    angle += math.tau",
+                   "assert -math.pi <= angle <= math.pi", "return angle"]
+OPOINT_DEFAULTS = {
+    "orientation": "lambda self: self.parentOrientation * Orientation.fromEuler(self.yaw, self.pitch, self.roll)",
+    "heading": "lambda self: self.yaw if alwaysGlobalOrientation(self.parentOrientation) else self.orientation.yaw",
+}
+
+
+def check_templates(vtree, cvtree, gtree, otree):
+    for trees, rel, table in ((vtree, VENEER, TEMPLATES_VENEER), (cvtree, VECTORS, TEMPLATES_VECTORS),
+                              (otree, OBJTYPES, TEMPLATES_OBJTYPES)):
+        for qual, want in table.items():
+            got, want = inline_def(trees, qual, rel).text, norm(want)
+            expect(got == want, f"{qual}: behaviour changed:\n  got  {got}\n  want {want}")
+    rel = inline_def(vtree, "RelativeTo", VENEER)
+    expect(rel.guards == RELTO_GUARDS, f"RelativeTo: guards changed: {rel.guards}")
+    for nm, want in RELTO_LOCALS.items():
+        got, want = rel.local(nm).text, norm(want)
+        expect(got == want, f"RelativeTo.{nm} changed:\n  got  {got}\n  want {want}")
+    fac = inline_def(vtree, "Facing", VENEER)
+    expect(fac.text == norm(FACING_SPEC), f"Facing: specified properties / dependencies changed: {fac.text}")
+    for i, want in enumerate(FACING_HELPERS):
+        got, want = fac.local("helper", i).text, norm(want)
+        expect(got == want, f"Facing.helper[{i}] changed:\n  got  {got}\n  want {want}")
+    na = get_def(gtree, "normalizeAngle", GEOMETRY)
+    expect([ast.unparse(s) for s in body_nodoc(na)] == NORMALIZE_ANGLE, "geometry.normalizeAngle changed")
+    # defaults of OrientedPoint.orientation / heading
+    op = get_def(otree, "OrientedPoint", OBJTYPES)
+    props = None
+    for st in op.body:
+        if isinstance(st, ast.Assign) and is_name(st.targets[0], "_scenic_properties") and isinstance(st.value, ast.Dict):
+            props = {k.value: v for k, v in zip(st.value.keys, st.value.values) if isinstance(k, ast.Constant)}
+    expect(props is not None, "OrientedPoint._scenic_properties not found")
+    for nm, want in OPOINT_DEFAULTS.items():
+        v = props.get(nm)
+        expect(isinstance(v, ast.Call) and ast.unparse(v.func) == "PropertyDefault" and len(v.args) == 3
+               and ast.unparse(v.args[2]) == want, f"OrientedPoint default of `{nm}` changed")
+    for nm in ("yaw", "pitch", "roll"):
+        v = props.get(nm)
+        expect(isinstance(v, ast.Call) and len(v.args) == 3 and ast.unparse(v.args[2]) == "lambda self: 0",
+               f"OrientedPoint default of `{nm}` is no longer 0")
+    expect(ast.unparse(props.get("parentOrientation", ast.Constant(None))) == "globalOrientation",
+           "OrientedPoint default parentOrientation is no longer the global orientation")
+
+
 def extract():
-    src, tree = load(VENEER)
-    d = {"specs": {k: extract_dirspec(tree, k, f) for k, f in SPECS}}
-    d["contact"] = extract_contact(tree)
-    d["on"] = extract_on(tree)
-    d["beyond"] = extract_beyond(tree)
-    d["apparentlyUsesParent"] = extract_apparently(tree)
-    d["beyondInherits"] = extract_beyond_inherits(tree)
-    d["corners"], d["sides"] = extract_object_tables()
+    _, vtree = load(VENEER)
+    _, cvtree = load(VECTORS)
+    _, gtree = load(GEOMETRY)
+    _, otree = load(OBJTYPES)
+    try:
+        d = {"specs": {k: extract_dirspec(vtree, k, f) for k, f in SPECS}}
+        d["contact"] = extract_contact(vtree)
+        d["on"] = extract_on(vtree)
+        d["beyond"] = extract_beyond(vtree)
+        d["facing"] = extract_facing(vtree)
+        d["rotatedBy"] = extract_rotated_by(cvtree)
+        d["angles"] = extract_angles(cvtree, gtree)
+        d["eulerAxes"] = extract_euler_axes(cvtree)
+        d["follow"] = extract_follow(cvtree)
+        d["corners"], d["sides"] = extract_object_tables(otree)
+        check_templates(vtree, cvtree, gtree, otree)
+    except RecursionError:
+        raise TemplateMismatch("source too deeply nested")
     return d
 
 
@@ -303,9 +781,14 @@ def _int(z):
     return f"({z})" if z < 0 else str(z)
 
 
+def _bool(b):
+    return "true" if b else "false"
+
+
 def to_lean(d):
-    out = ["/-! formulas and tables of the directional specifiers, `on`, `beyond`, `apparently facing`",
-           "    (veneer.py) and of the sides / corners of an `Object` (object_types.py) -/",
+    out = ["/-! formulas and tables of the directional specifiers, `on`, `beyond`, the `facing toward` family",
+           "    (veneer.py), of the vector / angle primitives (vectors.py, geometry.py) and of the sides / corners of an",
+           "    `Object` (object_types.py) -/",
            "set_option linter.unusedVariables false",
            "namespace Scenic.Gen.Frames", "section",
            "variable {α : Type} [Add α] [Sub α] [Mul α] [Neg α] [Div α] [OfNat α 0] [OfNat α 1] [OfNat α 2]", ""]
@@ -326,13 +809,31 @@ def to_lean(d):
     out.append(f"def onContactOffset (ct ox oy oz : α) : α × α × α := {_triple(d['on'])}")
     out.append("/-- `Beyond`: a scalar offset `d` is read as this vector -/")
     out.append(f"def beyondScalar (d : α) : α × α × α := {_triple(d['beyond'])}")
+    out.append("/-- `Vector.rotatedBy(angle)` with `c = cos angle`, `s = sin angle` -/")
+    out.append(f"def rotatedByFormula (c s x y z : α) : α × α × α := {_triple(d['rotatedBy'])}")
+    docs = {"sphTheta": "`Vector.sphericalCoordinates()[1]`", "sphPhi": "`Vector.sphericalCoordinates()[2]`",
+            "azimuthTo": "`Vector.azimuthTo` on `d = other - self`", "altitudeTo": "`Vector.altitudeTo` on `d = other - self`",
+            "apparentHeading": "`geometry.apparentHeadingAtPoint(point, heading, base)`"}
+    for key in ("sphTheta", "sphPhi", "azimuthTo", "altitudeTo", "apparentHeading"):
+        a = d["angles"][key]
+        out.append(f"/-- {docs[key]}: the arguments `(A, B)` of its `atan2(A, B)` (`h` stands for `hypot` of the first two coordinates) -/")
+        out.append(f"def {key}Args ({a['params']} : α) : α × α := ({a['atoms'][0][0]}, {a['atoms'][0][1]})")
+        out.append(f"/-- … and `(cos, sin)` of the result from `(c0, s0) = (cos, sin)` of that `atan2` -/")
+        out.append(f"def {key}Post ({a['inputs']} : α) : α × α := ({a['post'][0]}, {a['post'][1]})")
     out.append("end")
     out.append("")
-    out.append("/-- whether `ApparentlyFacing.helper` computes the line of sight in the parent frame -/")
-    out.append(f"def apparentlyFacingUsesParent : Bool := {str(d['apparentlyUsesParent']).lower()}")
-    out.append("/-- whether `Beyond` tests `isA(fromPt, OrientedPoint)` before coercing `fromPt` to a vector")
-    out.append("    (only then can the orientation of an oriented `from` argument be inherited) -/")
-    out.append(f"def beyondInheritsFromOrientation : Bool := {str(d['beyondInherits']).lower()}")
+    out.append("/-- `VectorField.followFrom`: number of forward-Euler steps -/")
+    out.append(f"def followNumSteps (minSteps : Nat) (dist stepSize : Rat) : Nat := {d['follow']}")
+    code = {"X": 0, "Y": 1, "Z": 2, "x": 3, "y": 4, "z": 5}
+    for nm, ax in zip(("fromEulerAxes", "eulerAnglesAxes"), d["eulerAxes"]):
+        out.append("/-- axis sequence given to SciPy by `Orientation." + {"fromEulerAxes": "_fromEuler", "eulerAnglesAxes": "eulerAngles"}[nm] +
+                   "`, encoded as X = 0, Y = 1, Z = 2 (intrinsic, upper case), x = 3, y = 4, z = 5 (extrinsic, lower case) -/")
+        out.append(f"def {nm} : List Nat := [" + ", ".join(str(code[c]) for c in ax) + f"]   -- \"{ax}\"")
+    out.append("/-- the `facing toward` family: (direction is `position - target`, pitch is specified too, a heading is added) -/")
+    out.append("def facingTable : List (String × (Bool × Bool × Bool)) := [")
+    out.append(",\n".join(f"  (\"{n}\", ({_bool(d['facing'][n][0])}, {_bool(d['facing'][n][1])}, {_bool(d['facing'][n][2])}))"
+                          for n in FACING))
+    out.append("]")
     out.append("/-- `Object.corners`: signs of `(hw, hl, hh)`, in source order -/")
     out.append("def cornerTable : List (Int × Int × Int) := [" +
                ", ".join(f"({_int(a)}, {_int(b)}, {_int(c)})" for a, b, c in d["corners"]) + "]")
